@@ -320,4 +320,69 @@ theorem createEmpty_post (c : Cfg) (hc : c.posix = false) (fs fs1 : FS) (hi : FS
           · rw [hn]
           · rw [hn]; exact hte
 
+theorem dirBit_setNode {fs : FS} (hb : DirBit fs) (a : Ino) (n' : Inode)
+    (hm : n'.mode = (fs.node a).mode) (hd : n'.dir = (fs.node a).dir) : DirBit (fs.setNode a n') := by
+  intro i h
+  rw [node_setNode] at h ⊢
+  split at h
+  · rename_i hc; simp only [hc, and_self, if_true]; rw [hm] at h; rw [hd]; exact hb a h
+  · rename_i hc; simp only [hc, if_false]; exact hb i h
+
+/-- a new plain file (permission bits only) keeps `DirBit` -/
+theorem dirBit_create_file {fs : FS} (hb : DirBit fs) (d : Nat) (n : Name) (perm : Nat)
+    (hperm : perm.testBit 31 = false) (hd : (fs.node d).dir = true) :
+    DirBit (fs.create d n { mode := perm }).1 :=
+  dirBit_create hb d n _ hd (by intro h; simp [hperm] at h)
+
+/-- `DirBit` as a structure (so that unification never unfolds it) -/
+structure DB (fs : FS) : Prop where
+  h : DirBit fs
+
+theorem DB.setNode {fs : FS} (hb : DB fs) (a : Ino) (n' : Inode)
+    (hm : n'.mode = (fs.node a).mode) (hd : n'.dir = (fs.node a).dir) : DB (fs.setNode a n') :=
+  ⟨dirBit_setNode hb.h a n' hm hd⟩
+
+theorem DB.createFile {fs : FS} (hb : DB fs) (d : Nat) (n : Name) (perm : Nat)
+    (hperm : perm.testBit 31 = false) (hd : (fs.node d).dir = true) : DB (fs.create d n { mode := perm }).1 :=
+  ⟨dirBit_create_file hb.h d n perm hperm hd⟩
+
+theorem openFileD_DB (c : Cfg) (flag perm : Nat) (hperm : perm.testBit 31 = false) :
+    ∀ (budget : Nat) (fs : FS) (start : List Ino) (name : Text),
+      DB fs → DB (openFileD c flag perm budget fs start name).1 := by
+  intro budget
+  induction budget with
+  | zero =>
+    intro fs start name hb
+    unfold openFileD
+    simp only []
+    repeat' split
+    all_goals (try exact hb)
+    all_goals (try exact hb.createFile _ _ _ hperm (by simp_all))
+    all_goals (try exact (hb.createFile _ _ _ hperm (by simp_all)).setNode _ _ rfl rfl)
+    all_goals (exact hb.setNode _ _ rfl rfl)
+  | succ k ih =>
+    intro fs start name hb
+    unfold openFileD
+    simp only []
+    repeat' split
+    all_goals (try exact hb)
+    all_goals (try exact ih _ _ _ hb)
+    all_goals (try exact ih _ _ _ (hb.createFile _ _ _ hperm (by simp_all)))
+    all_goals (try exact hb.createFile _ _ _ hperm (by simp_all))
+    all_goals (try exact (hb.createFile _ _ _ hperm (by simp_all)).setNode _ _ rfl rfl)
+    all_goals (exact hb.setNode _ _ rfl rfl)
+
+theorem openCore_dirBit (c : Cfg) (fs : FS) (name : Text) (flag perm : Nat) (hperm : perm.testBit 31 = false)
+    (hb : DirBit fs) : DirBit (openCore c fs name flag perm).1 := by
+  unfold openCore
+  have := openFileD_DB c flag perm hperm maxLinks fs [0] name ⟨hb⟩
+  split
+  · rename_i heq; simp only [heq] at this; exact this.h
+  · rename_i fs1 o heq
+    simp only [heq] at this
+    simp only [newMemFile]
+    split
+    · exact dirBit_setNode this.h _ _ rfl rfl
+    · exact this.h
+
 end Apko.Accounts
